@@ -10,7 +10,7 @@ completeness for every other shape; `exc_sound` is proved in full.
 Hypotheses are the verifier's: instructions have ≥ 1 code unit, targets / try starts / handlers
 inside the method are instruction offsets, try ranges are non-empty and pairwise disjoint.
 -/
-import AgVerif.Proof.CfgSpec
+import AgVerif.Proof.CfgSucc
 namespace AgVerif.C12
 open AgVerif.Cfg AgVerif.Spec.Cfg AgVerif.Gen.CfgOps
 
@@ -52,6 +52,20 @@ theorem exc_complete_partial {m : List Ins} {ex : List Exc} (hm : MinLen m) (hwf
     have := match_covers_start hm hwf hne hb he' hm'
     exact pairwise_eq_of_not hd e' he' e he (by omega) (by omega)
 
+/-- "…and its handler blocks": the block `ExceptionAnalysis` attaches to a handler of a try range
+    (`basic_blocks.get_basic_block(addr)`) is the block that STARTS at the handler address, whenever
+    that address is the offset of an instruction; so the exception information a block reports lists,
+    for each handler `(type, addr)` of its try range, `(type, addr, block starting at addr)`. -/
+theorem handler_blocks {m : List Ins} {ex : List Exc} (hm : MinLen m) {e : Exc} (he : e ∈ ex)
+    {h : Option Nat × Nat} (hh : h ∈ e.handlers) (ho : InsnOffsetM m h.2) :
+    (getBlock (blocks m ex) (h.2 : Int)).map (·.start) = some h.2 ∧
+    (h.1, h.2, some h.2) ∈ excHandlers (blocks m ex) e := by
+  obtain ⟨b, _, hs, hg⟩ := handler_block_of hm he hh ho
+  refine ⟨by simp [hg, hs], ?_⟩
+  unfold excHandlers
+  simp only [List.mem_map]
+  exact ⟨h, hh, by simp [hg, hs]⟩
+
 /-- The property's completeness half at full strength. -/
 def exc_complete_full : Prop :=
   ∀ (m : List Ins) (ex : List Exc) (b : Block) (e : Exc) (o : Nat),
@@ -92,5 +106,8 @@ theorem exc_complete_refuted : ¬ exc_complete_full := by
 example : excOf [wE] ⟨0, [⟨2, 0x00, 0, 0, [], false⟩, ⟨4, 0x38, 3, 0, [], false⟩]⟩ = some wE := by decide
 example : (blocks wM [wE]).map (fun b => (b.start, b.stop)) = [(0, 6), (6, 8), (8, 12), (12, 14)] := by decide
 example : (blocks wM [wE]).map (excOf [wE]) = [some wE, some wE, none, none] := by decide
+
+example : (blocks wM [wE]).map (fun b => (excOf [wE] b).map (excHandlers (blocks wM [wE]))) =
+    [some [(none, 12, some 12)], some [(none, 12, some 12)], none, none] := by decide
 
 end AgVerif.C12
